@@ -65,8 +65,16 @@ def AttrsData (w : W) (m : PMesh) (attrs : List (String × Nat)) : Prop :=
   ∀ ka ∈ attrs, ∃ a ∈ m.written, ka.1 = gltfAttrName a.name
     ∧ AccIs w ka.2 (attrComp a.name) a.dim a.vals.length a.vals.flatten
 
+/-- the written attributes of `m` have pairwise different glTF names (no two attributes compete for one key of the
+    `primitive.attributes` object) -/
+def KeysOK (m : PMesh) : Prop := List.Pairwise (fun a b : Attr => gltfAttrName a.name ≠ gltfAttrName b.name) m.written
+
+/-- every written attribute has an entry under its glTF name -/
+def Complete (m : PMesh) (attrs : List (String × Nat)) : Prop :=
+  KeysOK m → ∀ a ∈ m.written, ∃ i, (gltfAttrName a.name, i) ∈ attrs
+
 def MeshData (w : W) (m : PMesh) (attrs : List (String × Nat)) (idx : Nat) : Prop :=
-  AttrsData w m attrs ∧ (m.written ≠ [] → attrs ≠ [])
+  AttrsData w m attrs ∧ ((m.written ≠ [] → attrs ≠ []) ∧ Complete m attrs)
   ∧ AccIs w idx (indexComp m.attrLen) 1 m.indices.length m.indices
 
 theorem attrsData_mono {w w' : W} {m : PMesh} {attrs : List (String × Nat)} (h : AttrsData w m attrs) (e : Ext w w') :
@@ -101,6 +109,31 @@ theorem writeAttrs_data (m : PMesh) (w : W) (acc : List (String × Nat)) (l : Li
     obtain ⟨h1, h2, h3⟩ := ih _ _ hw1 (fun x hx => hl x (by simp [hx])) hacc1
     exact ⟨h1, (ext_writeVec _ _ _ _).trans' h2, fun _ => h3 (Or.inr (mapInsert_ne_nil _ _ _))⟩
 
+theorem writeAttrs_complete (w : W) (acc : List (String × Nat)) (l : List Attr)
+    (hl : List.Pairwise (fun a b : Attr => gltfAttrName a.name ≠ gltfAttrName b.name) l) :
+    (∀ ka ∈ acc, (∀ a ∈ l, gltfAttrName a.name ≠ ka.1) → ka ∈ (writeAttrs w acc l).2)
+    ∧ ∀ a ∈ l, ∃ i, (gltfAttrName a.name, i) ∈ (writeAttrs w acc l).2 := by
+  induction l generalizing w acc with
+  | nil => exact ⟨fun ka hka _ => hka, by simp⟩
+  | cons a r ih =>
+    simp only [writeAttrs]
+    rw [List.pairwise_cons] at hl
+    obtain ⟨h1, h2⟩ := ih (writeVec w (attrComp a.name) a.dim a.vals) (mapInsert acc (gltfAttrName a.name) w.accessors.length) hl.2
+    refine ⟨?_, ?_⟩
+    · intro ka hka hne
+      apply h1 ka
+      · unfold mapInsert
+        simp only [List.mem_append, List.mem_filter, List.mem_singleton]
+        exact Or.inl ⟨hka, by simpa using fun h => hne a (by simp) h.symm⟩
+      · intro x hx; exact hne x (by simp [hx])
+    · intro x hx
+      simp only [List.mem_cons] at hx
+      rcases hx with rfl | hx
+      · refine ⟨w.accessors.length, h1 _ ?_ ?_⟩
+        · unfold mapInsert; simp
+        · intro y hy; exact fun h => hl.1 y hy h.symm
+      · exact h2 x hx
+
 theorem writeMeshData_data (w : W) (id : Nat) (m : PMesh) (hw : Inv w) (hm : MeshWF m) :
     MeshData (writeMeshData w id m).1 m (writeMeshData w id m).2.1 (writeMeshData w id m).2.2
     ∧ Ext w (writeMeshData w id m).1 := by
@@ -109,7 +142,7 @@ theorem writeMeshData_data (w : W) (id : Nat) (m : PMesh) (hw : Inv w) (hm : Mes
   have hidx := accIs_writeIndices _ hw1 m.indices m.attrLen hm.2
   have e2 : Ext (writeAttrs w [] m.written).1 (writeMeshData w id m).1 := ⟨_, _, _, rfl, rfl, rfl⟩
   have e3 : Ext (writeIndices (writeAttrs w [] m.written).1 m.indices m.attrLen) (writeMeshData w id m).1 := ⟨[], [], [], by simp [writeMeshData], by simp [writeMeshData], by simp [writeMeshData]⟩
-  refine ⟨⟨attrsData_mono h1 e2, fun hne => h3 (Or.inl hne), accIs_mono hidx e3⟩, h2.trans' e2⟩
+  refine ⟨⟨attrsData_mono h1 e2, ⟨fun hne => h3 (Or.inl hne), fun hk => (writeAttrs_complete w [] m.written hk).2⟩, accIs_mono hidx e3⟩, h2.trans' e2⟩
 
 /-! ### the data invariant of `AddScene` -/
 
@@ -414,7 +447,7 @@ theorem scene_prims_ok (s : Scene) (w : W) (hs : SceneOK2 s) (h : writeScene s =
       cases hpa : p.attrs with
       | nil =>
         rcases hs.2 m (List.mem_of_getElem? h1) with hne | hnil
-        · exact absurd hpa (hd.2.1 hne)
+        · exact absurd hpa (hd.2.1.1 hne)
         · rw [hnil] at hv; cases hv
       | cons q r =>
         obtain ⟨y, hy, hyc, _⟩ := hcount q (by rw [hpa]; simp)
